@@ -1,4 +1,6 @@
 pub mod c01;
+pub mod c03;
+pub mod c20;
 
 use serde_json::{json, Value};
 
